@@ -98,9 +98,18 @@ class Module:
                 self.functions[n.name] = n
             elif isinstance(n, ast.ClassDef):
                 self.classes[n.name] = n
-            elif isinstance(n, ast.ImportFrom) and n.module:
+            elif isinstance(n, ast.ImportFrom) and (n.module or n.level):
+                base = n.module or ""
+                if n.level:
+                    parts = path[:-3].split("/")
+                    if parts[-1] == "__init__":
+                        parts = parts[:-1]
+                    else:
+                        parts = parts[:-1]
+                    parts = parts[:len(parts) - (n.level - 1)] if n.level > 1 else parts
+                    base = ".".join(parts + ([n.module] if n.module else []))
                 for a in n.names:
-                    self.imports[a.asname or a.name] = (n.module, a.name)
+                    self.imports[a.asname or a.name] = (base, a.name)
             elif isinstance(n, ast.Import):
                 for a in n.names:
                     self.modnames[a.asname or a.name.split(".")[0]] = a.name
@@ -118,11 +127,29 @@ class Index:
                 self.mods[rel] = Module(rel, ast.parse(f.read()))
 
     def by_dotted(self, dotted):
-        rel = dotted.replace(".", "/") + ".py"
-        if rel in self.mods:
-            return self.mods[rel]
-        rel = dotted.replace(".", "/") + "/__init__.py"
-        return self.mods.get(rel)
+        """module of the repository by dotted name; sktime modules outside the anchored list are
+        parsed on demand (helpers and base classes may live anywhere in the package)"""
+        for rel in (dotted.replace(".", "/") + ".py", dotted.replace(".", "/") + "/__init__.py"):
+            if rel in self.mods:
+                return self.mods[rel]
+        if dotted.split(".")[0] != "sktime":
+            return None
+        for rel in (dotted.replace(".", "/") + ".py", dotted.replace(".", "/") + "/__init__.py"):
+            p = os.path.join(self.repo, rel)
+            if os.path.exists(p):
+                with open(p) as f:
+                    try:
+                        tree = ast.parse(f.read())
+                    except SyntaxError:
+                        return None
+                m = Module(rel, tree)
+                m.pkg = dotted if rel.endswith("__init__.py") else dotted.rsplit(".", 1)[0]
+                self.mods[rel] = m
+                return m
+        return None
+
+    def anchored(self, mod):
+        return mod.path in FILES
 
     def resolve_name(self, mod, name, seen=()):
         """-> (Module, FunctionDef | ClassDef) or None"""
@@ -1158,11 +1185,25 @@ class Interp:
         saved_mod = self.mod
         self.mod = m
         self.depth += 1
+        failed = None
         try:
             rets = self.run_body(node.body, env2)
+        except Reject as r:
+            failed = r
         finally:
             self.mod = saved_mod
             self.depth -= 1
+        if failed is not None:
+            # a utility of another (not anchored) module whose body is not in the subset, called
+            # with a literal axis=: the same trust as for numpy's own functions
+            if not self.index.anchored(m) and "axis" in params and pos \
+                    and pos[0].k in ("PANEL", "PLIST") \
+                    and any(k.arg == "axis" for k in e.keywords) \
+                    and all(v.k in ("P", "SELF") for v in pos[1:]):
+                red = True if node.name in REDUCERS else (False if node.name in KEEPERS else None)
+                return self.axis_result(node.name, self.as_array(pos[0], e),
+                                        self.kwconst(e, "axis"), red, e)
+            raise failed
         if not rets:
             return P
         out = rets[0]
